@@ -80,8 +80,8 @@ func tarRules(label string, a *dec.TarArchive, dotSlash bool, complete bool) []p
 			add("non-dir-with-trailing-slash", n)
 		}
 		for _, b := range e.Base256 {
-			if b == "mode" || b == "uid" || b == "gid" || b == "mtime" {
-				add("base256-"+b, fmt.Sprintf("%q stores %s in base-256 (value %d)", n, b, map[string]int64{"mode": e.Mode, "uid": e.UID, "gid": e.GID, "mtime": e.MTime}[b]))
+			if b == "mode" { // a mode always fits the octal field; other fields may legitimately need base-256
+				add("base256-"+b, fmt.Sprintf("%q stores %s in base-256 (value %d)", n, b, e.Mode))
 			}
 		}
 		if e.Mode&^0o7777 != 0 {
@@ -182,8 +182,8 @@ func structural(f string, raw []byte, p *dec.Package, signed bool, hasScripts bo
 		}
 		if p.Control != nil {
 			ps = append(ps, tarRules("control.tar", p.Control, true, true)...)
-			if len(p.Control.Entries) == 0 || p.Control.Entries[0].Name != "./control" {
-				add("control.tar/first-member", fmt.Sprintf("%v", names(p.Control)))
+			if p.Control.Find("./control") == nil {
+				add("control.tar/no-control-member", fmt.Sprintf("%v", names(p.Control)))
 			}
 		}
 		if p.DataTar != nil {
